@@ -58,12 +58,12 @@ Fixpoint adel1 (k : N) (l : list (N * N)) : list (N * N) :=
 (* unordered_map::emplace: no effect when the key exists *)
 Definition aemplace (k v : N) (l : list (N * N)) : list (N * N) :=
   match aget k l with Some _ => l | None => l ++ [(k, v)] end.
-Fixpoint upd_nth {A} (n : nat) (x : A) (l : list A) : list A :=
+Fixpoint upd_nth {A} (n : nat) (x : A) (l : list A) {struct l} : list A :=
   match l with
   | [] => []
   | y :: r => match n with O => x :: r | S n' => y :: upd_nth n' x r end
   end.
-Fixpoint del_nth {A} (n : nat) (l : list A) : list A :=
+Fixpoint del_nth {A} (n : nat) (l : list A) {struct l} : list A :=
   match l with
   | [] => []
   | y :: r => match n with O => r | S n' => y :: del_nth n' r end
